@@ -58,6 +58,8 @@ def run(ctx: Ctx) -> None:
     rule_find_lc_binding(ctx)
     rule_lc_position(ctx)
     rule_lc_equivalent_direction(ctx)
+    from ..rules import orbits as _orb
+    _orb.rule_common_node_order(ctx, [("graphiq/backends/graph/state.py", "Graph.lc_equivalent")])
     from ..rules import tableau as _tb
     _tb.rule_sign_carry(ctx, [SRC, LCC])
     loops.rule_trial_fresh(ctx, LCE)
@@ -548,6 +550,7 @@ def rule_lc_toggle(ctx: Ctx) -> None:
 
 
 KNOCKOUTS = [
+    Knockout("lc-equivalent-own-node-orders", "graphiq/backends/graph/state.py", sub_once("        g2 = nx.to_numpy_array(other_graph.data, nodelist=nodelist).astype(int)\n", "        g2 = nx.to_numpy_array(other_graph.data).astype(int)\n"), "node.common-order", "Graph.lc_equivalent", on_fixed_only=True),
     Knockout("local-complementation-gamma-on-the-right", LCE, sub_once("            gamma_matrix @ adj_matrix\n", "            adj_matrix @ gamma_matrix\n"), "lc.matrix-form", "bracket"),
     Knockout("local-complementation-diagonal-kept", LCE, sub_once("    for j in range(n_nodes):\n        new_adj_matrix[j, j] = 0\n", ""), "lc.matrix-form", "diagonal"),
     Knockout("sign-repair-only-with-phase-gates", LCC, sub_once("    tab1 = get_stabilizer_tableau_from_graph(g1)\n    tab2 = get_stabilizer_tableau_from_graph(g2)\n    phase_correction = _phase_correction(tab1, tab2, gate_list)\n    gate_list += phase_correction\n", "    if any(\"P\" in ops for ops in lc_ops):\n        tab1 = get_stabilizer_tableau_from_graph(g1)\n        tab2 = get_stabilizer_tableau_from_graph(g2)\n        phase_correction = _phase_correction(tab1, tab2, gate_list)\n        gate_list += phase_correction\n"), "lc.sign-repair", "conditional"),
